@@ -110,3 +110,14 @@ Proof.
     apply candidates_In in Hin. exists b, f. cbn [fst snd] in *. unfold cost in Hcost. cbn [fst snd] in Hcost. tauto.
 Qed.
 End R.
+
+(* S' : S $ | error $ ;  S : a b c | a error c   (terminals a=0 b=1 c=2 error=3 $=4; nonterminals S'=0 S=1).
+   Input a b b c $: the first token that cannot be shifted is token 2; with recovery_match 2 the cheapest
+   simple recovery goes back to position 1 (error expected after a), skips token 2: cost (2 - 1) + 1 = 2. *)
+Example simple_recovery_ex :
+  let g := [ {| lhs := 0; rhs := [N 1; T 4] |}; {| lhs := 0; rhs := [T 3; T 4] |};
+             {| lhs := 1; rhs := [T 0; T 1; T 2] |}; {| lhs := 1; rhs := [T 0; T 3; T 2] |} ] in
+  shift_count g 0 [0; 1; 1; 2; 4] = Some (2, false) /\
+  min_simple_cost g 0 3 [0; 1; 1; 2; 4] 2 2 = Some (Some 2) /\
+  simple_ok g 0 3 [0; 1; 1; 2; 4] 2 2 1 1 = Some true.
+Proof. vm_compute. auto. Qed.
